@@ -127,6 +127,9 @@ type World struct {
 	ValKey cryptotypes.PrivKey
 	qctx   *sdk.Context // cached context on the last committed state
 	base   *BaseSnap
+	// Poisoned: a panic escaped BeginBlock/EndBlock/Commit; baseapp keeps its half-built deliver
+	// state, so this instance must not be reused (not even after Restore)
+	Poisoned bool
 }
 
 func appOptions(skipInv bool) simtestutil.AppOptionsMap {
@@ -242,7 +245,11 @@ func BuildGenesis(a *app.App, spec GenesisSpec, accts func(string) *Acct) (json.
 	}
 	var wl []string
 	for _, n := range spec.Whitelist {
-		wl = append(wl, accts(n).Bech())
+		if len(n) > 4 && n[:4] == "mod:" {
+			wl = append(wl, ModAddr(n[4:]).String())
+		} else {
+			wl = append(wl, accts(n).Bech())
+		}
 	}
 	eg := enttypes.GenesisState{
 		Params:                  enttypes.NewParams(Nund, spec.MinAccept, spec.Limit, signers),
@@ -338,6 +345,7 @@ func (w *World) BeginBlockAt(t time.Time) (res abci.ResponseBeginBlock, pan stri
 	defer func() {
 		if r := recover(); r != nil {
 			pan = fmt.Sprint(r)
+			w.Poisoned = true
 		}
 	}()
 	w.hdr = tmproto.Header{ChainID: ChainID, Height: w.Height + 1, Time: t, AppHash: w.App.LastCommitID().Hash}
@@ -360,6 +368,7 @@ func (w *World) EndBlock() (res abci.ResponseEndBlock, pan string) {
 	defer func() {
 		if r := recover(); r != nil {
 			pan = fmt.Sprint(r)
+			w.Poisoned = true
 		}
 	}()
 	res = w.App.EndBlock(abci.RequestEndBlock{Height: w.hdr.Height})
@@ -370,6 +379,7 @@ func (w *World) Commit() (hash []byte, pan string) {
 	defer func() {
 		if r := recover(); r != nil {
 			pan = fmt.Sprint(r)
+			w.Poisoned = true
 		}
 	}()
 	c := w.App.Commit()
@@ -706,6 +716,9 @@ func (s *Snap) each(f func(k, v []byte)) {
 
 // Restore makes the database contents equal to the snapshot, in place, and reloads the multistore.
 func (w *World) Restore(s *Snap) {
+	if w.Poisoned {
+		panic("harness: Restore on an application instance that panicked inside a block")
+	}
 	diff := map[string][]byte{}
 	s.each(func(k, v []byte) { diff[string(k)] = v })
 	tomb := map[string]bool{}
